@@ -169,6 +169,31 @@ def run(ctx, report):
                             return
         report.count('xml:segments', len(segs))
         xml_texts.append(xml_text)
+        # values: every <ele> / <subele> written carries, after the parser has undone the escaping, exactly the source value
+        import pyx12.segment
+        d0 = (text[105], text[3], text[104])
+        for (sid, p, formatted, nid, fits, _b, _e), (xid, xpath, el) in zip(rows, segs):
+            if nid != sid or not fits:
+                continue
+            try:
+                sg = pyx12.segment.Segment(formatted, d0[0], d0[1], d0[2])
+            except Exception:  # noqa
+                continue
+            for ch in el:
+                cid = ch.get('id') or ''
+                if ch.tag == 'ele':
+                    src_v = sg.get_value('%s%s' % (xid, cid[-2:]))
+                    if (ch.text or '') != (src_v or ''):
+                        report.fail('C08:value:ele', 'element %s reads back as %r, source value %r' % (cid, ch.text, src_v), inp)
+                        return
+                elif ch.tag == 'comp':
+                    for sub in ch:
+                        sc = sub.get('id') or ''
+                        src_v = sg.get_value(sc)
+                        if (sub.text or '') != (src_v or ''):
+                            report.fail('C08:value:subele', 'sub-element %s reads back as %r, source value %r' % (sc, sub.text, src_v), inp)
+                            return
+            report.count('xml:values-compared', len(el))
         # round trip, for documents in which every segment was located by its own id
         if not all(r[3] == r[0] for r in rows):
             report.count('roundtrip:skipped-unlocated-segments')
